@@ -340,3 +340,34 @@ def immutable_fields(mods, candidates=('type',), allowed_writers=(('type', 'cfg_
         if ok:
             out.add(cand)
     return out
+
+
+def field_reads(mods, sty='%struct.cfg_t'):
+    """{function: set of member names of `sty` it may load, transitively through direct calls}"""
+    own = {}
+    calls = {}
+    for m in mods:
+        for f in m.funcs.values():
+            rd = set()
+            cs = set()
+            for ins in f.instrs():
+                if ins.op == 'load' and ins.ops[0].kind == 'reg':
+                    g = f.defs.get(ins.ops[0].name)
+                    if g is not None and g.op == 'getelementptr' and (g.srcty or '').strip() == sty and len(g.ops) >= 3 and g.ops[2].kind == 'int':
+                        rd.add(m.field_name(sty, g.ops[2].ival))
+                elif ins.op == 'call' and not ins.is_dbg():
+                    n = ins.callee_name()
+                    if n:
+                        cs.add(n)
+            own[f.name] = rd
+            calls[f.name] = cs
+    out = {n: set(r) for n, r in own.items()}
+    changed = True
+    while changed:
+        changed = False
+        for n in out:
+            for cal in calls[n]:
+                if cal in out and not out[cal] <= out[n]:
+                    out[n] |= out[cal]
+                    changed = True
+    return out
